@@ -213,7 +213,7 @@ class FixedAsciiString(TypeDefinition):
         return self.length, value[:self.length].encode(_ASCII)
 
     def from_bytes(self, data: bytes) -> Tuple[int, str]:
-        return self.length, data[:self.length].decode(_ASCII).strip()
+        return self.length, data[:self.length].decode(_ASCII).strip(' ')
 
 
 @TypeDefinition.add_type('str_iso-8859-1_n')
@@ -233,4 +233,4 @@ class FixedIsoString(TypeDefinition):
         return self.length, value[:self.length].encode(_ISO_STR)
 
     def from_bytes(self, data: bytes) -> Tuple[int, str]:
-        return self.length, data[:self.length].decode(_ISO_STR).strip()
+        return self.length, data[:self.length].decode(_ISO_STR).strip(' ')
